@@ -85,6 +85,20 @@ def emit_write(a, var, rng):
         a.emit(36, "CALLDATALOAD")
         a.emit(var["slot"] if var["slot"] else ("push", 0, 1), 0, "MSTORE", 0x20, 0, "SHA3")
         a.emit(4, "CALLDATALOAD", "ADD", "SSTORE")
+    elif kind == "packed" and var.get("write_style") in ("single-left", "single-right"):
+        # all fields combined into one word and stored with a single SSTORE (struct initialisation); the or-tree
+        # leans right when the accumulator stays below the new field (f0; f1; OR; f2; OR) and left with a SWAP1
+        slot = var["slot"] if var["slot"] else ("push", 0, 1)
+        for i, (off, width) in enumerate(var["fields"]):
+            m = (1 << (8 * width)) - 1
+            a.emit(4 + 32 * (i % 6), "CALLDATALOAD", ("push", m, width), "AND")
+            if off:
+                a.emit(("push", 1 << (8 * off), None), "MUL")
+            if i:
+                if var["write_style"] == "single-left":
+                    a.emit("SWAP1")
+                a.emit("OR")
+        a.emit(slot, "SSTORE")
     elif kind == "packed":
         for (off, width) in var["fields"]:
             m = (1 << (8 * width)) - 1
@@ -157,5 +171,6 @@ def random_ground_truth(rng, nvars=None, slot_pool=None, kinds=None):
         elif kind == "packed":
             var["fields"] = random_fields(rng)
             var["shift_style"] = rng.choice(["shr", "div"])
+            var["write_style"] = rng.choice(["per-field", "per-field", "single-left", "single-right"])
         gt.append(var)
     return gt
